@@ -21,9 +21,12 @@ M0 == [enums |-> [Color |-> {"RED", "GREEN"}],
               fields |-> <<Fld("n", "", TInt, Req), Fld("opt_s", "", TOpt(TStr), DfNull), Fld("col", "", E, DfVal(VEnum("Color", "RED"))),
                            Fld("sc", "", TScore, DfVal(DInt(3))), Fld("tags", "", TList(TStr), DfVal(VList(<<>>))),
                            Fld("lit", "", TLit, DfVal(DStr("x")))>>],
+  SubIn  |-> [kind |-> "object", bases |-> <<>>, resolvers |-> <<>>, fields |-> <<Fld("x_coord", "", TInt, DfVal(DInt(1)))>>],
   LeafIn |-> [kind |-> "object", bases |-> <<>>, resolvers |-> <<>>,
               fields |-> <<Fld("n", "", TCInt, Req), Fld("opt_s", "the_s", TOpt(TStr), DfNull), Fld("tags", "", TList(TStr), DfVal(VList(<<>>))),
-                           Fld("u", "", TUnd(TInt), DfUndef), Fld("k", "", TInt, DfVal(DInt(7)))>>],
+                           Fld("u", "", TUnd(TInt), DfUndef), Fld("k", "", TInt, DfVal(DInt(7))),
+                           \* an OBJECT-valued default whose keys the aliaser renames
+                           Fld("sub_in", "", TObj("SubIn"), DfVal(VInst("SubIn", << <<"x_coord", DInt(4)>> >>)))>>],
   EnumIn |-> [kind |-> "object", bases |-> <<>>, resolvers |-> <<>>,
               fields |-> <<Fld("col", "", E, DfVal(VEnum("Color", "GREEN")))>>],
   Node   |-> [kind |-> "interface", bases |-> <<>>, resolvers |-> <<>>, fields |-> <<Fld("id", "", TId, Req)>>],
@@ -36,6 +39,14 @@ M0 == [enums |-> [Color |-> {"RED", "GREEN"}],
   Deep   |-> [kind |-> "object", bases |-> <<"Mid">>, resolvers |-> <<>>, fields |-> <<Fld("depth", "", TInt, DfVal(DInt(2)))>>],
   \* a Python subclass of an object type that the schema does not know
   SubLeaf |-> [kind |-> "hidden", bases |-> <<"Leaf">>, resolvers |-> <<>>, fields |-> <<Fld("extra", "", TInt, DfVal(DInt(1)))>>],
+  \* two parametrisations of ONE generic class Box[T] (named by a type_name factory): the type variable is
+  \* substituted in the field, in the resolver's return type and in its parameter
+  IntBox |-> [kind |-> "object", bases |-> <<>>, fields |-> <<Fld("item", "", TInt, Req)>>,
+              resolvers |-> <<[name |-> "first", params |-> <<>>, ret |-> TInt],
+                              [name |-> "has", params |-> <<Prm("item", TInt, Req)>>, ret |-> TBool]>>],
+  StrBox |-> [kind |-> "object", bases |-> <<>>, fields |-> <<Fld("item", "", TStr, Req)>>,
+              resolvers |-> <<[name |-> "first", params |-> <<>>, ret |-> TStr],
+                              [name |-> "has", params |-> <<Prm("item", TStr, Req)>>, ret |-> TBool]>>],
   Child  |-> [kind |-> "object", bases |-> <<>>, resolvers |-> <<>>, fields |-> <<Fld("c", "", TInt, Req)>>],
   Part   |-> [kind |-> "object", bases |-> <<>>, resolvers |-> <<>>,
               fields |-> <<Fld("part_n", "", TInt, Req), Fld("child", "", TObj("Child"), Req)>>],
@@ -71,6 +82,8 @@ Roots ==
     [t |-> TUni(<<"User", "Bot">>), vs |-> {UserV, BotV, UserV2}],
     [t |-> TObj("Deep"), vs |-> {DeepV}],
     [t |-> TObj("Part"), vs |-> {PartV(1)}],
+    [t |-> TObj("IntBox"), vs |-> {VInst("IntBox", << <<"item", DInt(3)>> >>)}],
+    [t |-> TList(TObj("StrBox")), vs |-> {VList(<<VInst("StrBox", << <<"item", DStr("s")>> >>)>>)}],
     [t |-> TInt, vs |-> {DInt(0), DInt(5)}],
     [t |-> TList(TOpt(TInt)), vs |-> {VList(<<DInt(1), DNull>>)}],
     [t |-> TUnd(TInt), vs |-> {VUndef, DInt(1)}],
@@ -113,7 +126,8 @@ Params ==
 EhParams == {[q EXCEPT !.p = [q.p EXCEPT !.eh = h]] : q \in {x \in Params : x.p.t \in {TCInt, TOpt(TCInt), TList(TCInt), TObj("LeafIn")}},
                                                        h \in {"none", "custom"}}
 InfoParams == {[q EXCEPT !.p = [q.p EXCEPT !.pos = "afterinfo"]] : q \in {x \in Params : x.p.t \in {TInt, TOpt(TInt)}}}
-LeafInV == VInst("LeafIn", << <<"n", DInt(2)>>, <<"opt_s", DStr("dflt")>>, <<"tags", VList(<<>>)>>, <<"u", VUndef>>, <<"k", DInt(7)>> >>)
+LeafInV == VInst("LeafIn", << <<"n", DInt(2)>>, <<"opt_s", DStr("dflt")>>, <<"tags", VList(<<>>)>>, <<"u", VUndef>>, <<"k", DInt(7)>>,
+                               <<"sub_in", VInst("SubIn", << <<"x_coord", DInt(4)>> >>)>> >>)
 ObjDefaultParams == {[p |-> Prm("arg_one", TObj("LeafIn"), DfVal(LeafInV)), ds |-> {DObj(<< <<"n", DInt(1)>> >>)}]}
 Cfgs == {[kind |-> "root", root |-> r] : r \in Roots}
         \cup {[kind |-> "param", prm |-> p] : p \in Params \cup EhParams \cup InfoParams \cup ObjDefaultParams}
